@@ -48,6 +48,18 @@ def main():
         meta["demo_with_change"] = "fail" if rc1 != 0 else "PASS(unexpected)"
         os.remove(dst)
         rc2, out2 = sh("go1.26 test %s -count=1" % " ".join(pkgs), cwd=wt)
+        if rc2 != 0:
+            # the repository has tests that fail now and then on a loaded machine on the UNCHANGED tree as well
+            # (TestStreamableStateful_DiscoverDoesNotLeakSession: 1-6 % at the baseline commit): re-run the
+            # failing tests alone; they count as passing if 5 of 5 re-runs pass
+            failed = sorted(set(re.findall(r"^--- FAIL: (\w+)", out2, re.M)))
+            fpk = sorted(set(re.findall(r"^FAIL\s+(\S+)\s", out2, re.M)))
+            if failed and fpk and not re.search(r"^panic:|\[build failed\]", out2, re.M):
+                pk = " ".join("./" + f.split("go-sdk/", 1)[1] + "/" if "go-sdk/" in f else "./" for f in fpk)
+                rc3, out3 = sh("go1.26 test %s -count=5 -run '^(%s)$'" % (pk, "|".join(failed)), cwd=wt)
+                meta["existing_tests_rerun"] = {"tests": failed, "result": "pass 5/5" if rc3 == 0 else "FAIL"}
+                if rc3 == 0:
+                    rc2 = 0
         meta["existing_tests_with_change"] = "pass" if rc2 == 0 else "FAIL"
         meta["ran"] += [run + " (without / with change)", "go1.26 test %s -count=1 (with change)" % " ".join(pkgs)]
         if rc2 != 0:
